@@ -4,6 +4,7 @@ mod mparse;
 mod worker;
 mod names;
 mod pyver;
+mod req;
 mod util;
 
 fn main() {
@@ -11,6 +12,7 @@ fn main() {
     if args.len() >= 3 && args[1] == "worker" {
         match args[2].as_str() {
             "mparse" => worker::serve(&mparse::worker_handle),
+            "req" => worker::serve(&req::worker_handle),
             _ => {}
         }
         return;
@@ -26,6 +28,7 @@ fn main() {
         "algebra" => algebra::run(&mut out, tier, seed, &args[5]),
         "pyver" => pyver::run(&mut out, tier, seed, &args[5]),
         "mparse" => mparse::run(&mut out, tier, seed, &args[5]),
+        "req" => req::run(&mut out, tier, seed, &args[5]),
         "name1" => names::one(&mut out, &util::unhex(&args[5])),
         _ => {
             eprintln!("unknown suite {suite}");
